@@ -165,15 +165,14 @@ theorem expected_cons (specs : List RSpec) (N : Nat) (hs0 : specs ≠ []) (rs : 
   | nil => exact absurd rfl hrs0
   | cons r t => cases t <;> simp [expected, hs0, hrs, shapeOf]
 
-/-- LAST STEP, satisfiable side: the header parses to exactly the denoted satisfiable ranges (all elements satisfiable)
-    ⇒ the answer chosen by `processRange` and filled by `respond` is the expected one -/
+/-- LAST STEP, satisfiable side: the header parses to exactly the denoted satisfiable ranges (at least one, unless the
+    header has no element at all) ⇒ the answer chosen by `processRange` and filled by `respond` is the expected one -/
 theorem respond_conforms_of_parse (h : List Char) (R : List Nat) (specs : List RSpec) (hN : R.length < 2 ^ 62)
     (hnil : h = [] → specs = [])
-    (hsat : ∀ sp ∈ specs, (satisfy R.length sp).isSome)
+    (hnil' : specs.filterMap (satisfy R.length) = [] → specs = [])
     (hp : parseRange h (R.length : Int) = some ((specs.filterMap (satisfy R.length)).map toRg)) :
     conforms (expected specs R.length) R (respond h R) = true := by
   have hb := filterMap_bounds R.length specs
-  have hnil' := filterMap_eq_nil_of_all_some R.length specs hsat
   generalize hrs : specs.filterMap (satisfy R.length) = rs at hp hb hnil'
   by_cases he : h = []
   · have := hnil he
@@ -216,22 +215,35 @@ theorem respond_conforms_of_parse (h : List Char) (R : List Nat) (specs : List R
           · rw [if_neg hover]; exact Or.inr rfl  -- shapeOf (r1 :: r2 :: rest) = .multi _ by rfl
 
 
-/-! ## the 416 side: an element whose first-byte-pos lies beyond the size fails the whole header -/
+/-! ## parseRange on a grammatical header: exactly the satisfiable elements, in order; the others are skipped -/
 
-/-- first-byte-pos > size: the elements `parseRange` rejects (it accepts first-byte-pos = size, see the open finding) -/
-def beyond (N : Nat) : RSpec → Bool
-  | .fromTo a _ => decide (a > N)
-  | .from a => decide (a > N)
-  | .suffix _ => false
+/-- what `parseOne` yields for an element of the grammar -/
+def elemOf (o : Option (Nat × Nat)) : Elem :=
+  match o with
+  | some r => .range (toRg r)
+  | none => .noOverlap
 
-theorem beyond_unsatisfiable (N : Nat) (sp : RSpec) (h : beyond N sp = true) : satisfy N sp = none := by
-  cases sp with
-  | fromTo a b => simp only [beyond, decide_eq_true_eq] at h; simp only [satisfy]; rw [if_neg (by omega)]
-  | «from» a => simp only [beyond, decide_eq_true_eq] at h; simp only [satisfy]; rw [if_neg (by omega)]
-  | suffix n => simp [beyond] at h
+/-- a plain number is neither empty nor signed -/
+theorem number_not_signed (s : List Char) (v : Nat) (h : number s = some v) : emptyOrSigned s = false := by
+  unfold number at h
+  cases hd : digitsVal s with
+  | none => simp [hd] at h
+  | some w =>
+    cases s with
+    | nil => simp [digitsVal] at hd
+    | cons c r =>
+      have hc : isDigit c = true := by
+        simp only [digitsVal, digitsAcc] at hd
+        by_cases hcd : isDigit c = true
+        · exact hcd
+        · simp [hcd] at hd
+      obtain ⟨_, h2⟩ := isDigit_not_sign c hc
+      simp [emptyOrSigned, h2]
 
-theorem parseOne_beyond (ra : List Char) (N : Nat) (sp : RSpec) (hd : denoteOne ra = some sp) (hb : beyond N sp = true) :
-    parseOne ra (N : Int) = none := by
+/-- MAIN numeric core: a grammatical element is parsed to exactly the (start, length) it denotes when it is satisfiable
+    for a representation of N bytes, and skipped (`noOverlap`) when it is not -/
+theorem parseOne_denote (ra : List Char) (N : Nat) (sp : RSpec) (hN : N < 2 ^ 62)
+    (hd : denoteOne ra = some sp) : parseOne ra (N : Int) = elemOf (satisfy N sp) := by
   unfold denoteOne at hd
   unfold parseOne
   cases hcut : cut '-' ra with
@@ -240,47 +252,120 @@ theorem parseOne_beyond (ra : List Char) (N : Nat) (sp : RSpec) (hd : denoteOne 
     obtain ⟨s0, e0⟩ := se
     simp only [hcut] at hd ⊢
     by_cases hs0 : trimSpace s0 = []
-    · simp only [hs0, if_true] at hd
+    · -- suffix form
+      simp only [hs0, if_true] at hd ⊢
       cases hn : number (trimSpace e0) with
       | none => simp [hn] at hd
-      | some n => simp only [hn, Option.some.injEq] at hd; subst hd; simp [beyond] at hb
-    · simp only [hs0, if_false] at hd ⊢
+      | some n =>
+        simp only [hn, Option.some.injEq] at hd
+        subst hd
+        obtain ⟨hp, hlt⟩ := parseInt64_number _ _ hn
+        have hsg := number_not_signed _ _ hn
+        have hneg : ¬ ((n : Int) < 0) := by omega
+        simp only [hp, hsg, Bool.false_eq_true, if_false, hneg]
+        simp only [satisfy]
+        by_cases hgt : (n : Int) > (N : Int)
+        · simp only [hgt, if_true]
+          by_cases hN0 : N = 0
+          · subst hN0; simp [elemOf]
+          · have h1 : ¬ ((N : Int) = 0) := by omega
+            have h2 : ¬ (n = 0 ∨ N = 0) := by omega
+            have hmin : min n N = N := by omega
+            simp only [h1, h2, if_false, hmin, elemOf, toRg]
+            have e1 : wrap64 ((N : Int) - (N : Int)) = 0 := by rw [wrap64_id] <;> omega
+            rw [e1]
+            have e2 : wrap64 ((N : Int) - 0) = (N : Int) := by rw [wrap64_id] <;> omega
+            rw [e2]
+            simp
+        · simp only [hgt, if_false]
+          by_cases hn0 : n = 0
+          · subst hn0; simp [elemOf]
+          · have h1 : ¬ ((n : Int) = 0) := by omega
+            have h2 : ¬ (n = 0 ∨ N = 0) := by omega
+            have hmin : min n N = n := by omega
+            simp only [h1, h2, if_false, hmin, elemOf, toRg]
+            have e1 : wrap64 ((N : Int) - (n : Int)) = ((N - n : Nat) : Int) := by rw [wrap64_id] <;> omega
+            rw [e1]
+            have e2 : wrap64 ((N : Int) - ((N - n : Nat) : Int)) = (n : Int) := by rw [wrap64_id] <;> omega
+            rw [e2]
+    · -- first-byte-pos form
+      simp only [hs0, if_false] at hd ⊢
       cases hn : number (trimSpace s0) with
       | none => simp [hn] at hd
       | some a =>
         simp only [hn] at hd
-        obtain ⟨hp, _⟩ := parseInt64_number _ _ hn
-        simp only [hp]
-        have hgt : a > N := by
+        obtain ⟨hp, hlt⟩ := parseInt64_number _ _ hn
+        have hneg : ¬ ((a : Int) < 0) := by omega
+        simp only [hp, hneg, if_false]
+        by_cases haN : a < N
+        · have hge : ¬ ((a : Int) ≥ (N : Int)) := by omega
+          simp only [hge, if_false]
           by_cases he0 : trimSpace e0 = []
-          · simp only [he0, if_true, Option.some.injEq] at hd; subst hd
-            simpa [beyond] using hb
-          · simp only [he0, if_false] at hd
+          · simp only [he0, if_true, Option.some.injEq] at hd ⊢
+            subst hd
+            simp only [satisfy, haN, if_true, elemOf, toRg]
+            congr 2
+            omega
+          · simp only [he0, if_false] at hd ⊢
             cases hm : number (trimSpace e0) with
             | none => simp [hm] at hd
             | some b =>
               simp only [hm] at hd
+              obtain ⟨hq, hlt2⟩ := parseInt64_number _ _ hm
+              simp only [hq]
               by_cases hab : a ≤ b
-              · simp only [hab, if_true, Option.some.injEq] at hd; subst hd
-                simpa [beyond] using hb
+              · simp only [hab, if_true, Option.some.injEq] at hd
+                subst hd
+                have h2 : ¬ ((a : Int) > (b : Int)) := by omega
+                simp only [h2, if_false, satisfy, haN, if_true, elemOf, toRg]
+                by_cases hbN : (b : Int) ≥ (N : Int)
+                · simp only [hbN, if_true]
+                  have : min b (N - 1) = N - 1 := by omega
+                  rw [this]
+                  congr 2
+                  omega
+                · simp only [hbN, if_false]
+                  have : min b (N - 1) = b := by omega
+                  rw [this]
+                  congr 2
+                  omega
               · simp [hab] at hd
-        have : ((a : Int) > (N : Int) ∨ (a : Int) < 0) := by omega
-        simp only [this, if_true]
+        · -- first-byte-pos ≥ size: skipped before the last-byte-pos is even looked at
+          have hge : ((a : Int) ≥ (N : Int)) := by omega
+          simp only [hge, if_true]
+          have : satisfy N sp = none := by
+            by_cases he0 : trimSpace e0 = []
+            · simp only [he0, if_true, Option.some.injEq] at hd; subst hd
+              simp [satisfy, haN]
+            · simp only [he0, if_false] at hd
+              cases hm : number (trimSpace e0) with
+              | none => simp [hm] at hd
+              | some b =>
+                simp only [hm] at hd
+                by_cases hab : a ≤ b
+                · simp only [hab, if_true, Option.some.injEq] at hd; subst hd
+                  simp [satisfy, haN]
+                · simp [hab] at hd
+          rw [this]; rfl
 
-theorem parsePieces_none_of_beyond (N : Nat) :
+/-- is some element of the header unsatisfiable (⇒ `noOverlap` is set) -/
+def anyUnsat (N : Nat) (specs : List RSpec) : Bool := specs.any fun sp => (satisfy N sp).isNone
+
+/-- the list level: the satisfiable elements, in order, and the flag -/
+theorem parsePieces_denote (N : Nat) (hN : N < 2 ^ 62) :
     ∀ (ps : List (List Char)) (specs : List RSpec), denotePieces ps = some specs →
-      specs.any (beyond N) = true → parsePieces ps (N : Int) = none := by
+      parsePieces ps (N : Int) = some ((specs.filterMap (satisfy N)).map toRg, anyUnsat N specs) := by
   intro ps
   induction ps with
-  | nil => intro specs h hb; simp [denotePieces] at h; subst h; simp at hb
+  | nil => intro specs h; simp [denotePieces] at h; subst h; rfl
   | cons p rest ih =>
-    intro specs h hb
+    intro specs h
     simp only [denotePieces] at h
     simp only [parsePieces]
-    by_cases hbl : trimSpace p = []
-    · simp only [hbl, if_true] at h ⊢
-      exact ih specs h hb
-    · simp only [hbl, if_false] at h ⊢
+    by_cases hb : trimSpace p = []
+    · simp only [hb, if_true] at h ⊢
+      exact ih specs h
+    · simp only [hb, if_false] at h ⊢
       cases hd : denoteOne (trimSpace p) with
       | none => simp [hd] at h
       | some sp =>
@@ -290,41 +375,66 @@ theorem parsePieces_none_of_beyond (N : Nat) :
         | some sps =>
           simp only [hr, Option.some.injEq] at h
           subst h
-          simp only [List.any_cons, Bool.or_eq_true] at hb
-          rcases hb with hb1 | hb2
-          · rw [parseOne_beyond _ N sp hd hb1]
-          · rw [ih sps hr hb2]
-            cases parseOne (trimSpace p) (N : Int) <;> rfl
+          rw [parseOne_denote (trimSpace p) N sp hN hd, ih sps hr]
+          cases hs : satisfy N sp with
+          | none => simp [elemOf, anyUnsat, hs]
+          | some r => simp [elemOf, anyUnsat, hs]
 
-/-- header level: grammatical header with an element beyond the size ⇒ "invalid range" -/
-theorem parseRange_none_of_beyond (h : List Char) (N : Nat) (specs : List RSpec)
-    (hd : denote h = some specs) (hb : specs.any (beyond N) = true) : parseRange h (N : Int) = none := by
+/-- header level, before the last test -/
+theorem parseRangeD_denote (h : List Char) (N : Nat) (hN : N < 2 ^ 62) (specs : List RSpec) (hd : denote h = some specs) :
+    parseRangeD h (N : Int) = some ((specs.filterMap (satisfy N)).map toRg, anyUnsat N specs) := by
   unfold denote at hd
-  unfold parseRange
+  unfold parseRangeD
   by_cases he : h = []
-  · simp only [he, if_true, Option.some.injEq] at hd
-    subst hd; simp at hb
+  · simp only [he, if_true, Option.some.injEq] at hd ⊢
+    subst hd; rfl
   · simp only [he, if_false] at hd ⊢
     cases hp : stripBytesPrefix h with
     | none => simp [hp] at hd
     | some rest =>
       simp only [hp] at hd ⊢
-      exact parsePieces_none_of_beyond N _ specs hd hb
+      exact parsePieces_denote N hN _ specs hd
+
+theorem anyUnsat_of_none_left (N : Nat) (specs : List RSpec) (hs0 : specs ≠ [])
+    (hnone : specs.filterMap (satisfy N) = []) : anyUnsat N specs = true := by
+  cases specs with
+  | nil => exact absurd rfl hs0
+  | cons sp rest =>
+    cases hs : satisfy N sp with
+    | none => simp [anyUnsat, hs]
+    | some r => simp [hs] at hnone
+
+/-- header level: at least one satisfiable element (or no element at all) ⇒ exactly the satisfiable ranges, in order -/
+theorem parseRange_some (h : List Char) (N : Nat) (hN : N < 2 ^ 62) (specs : List RSpec) (hd : denote h = some specs)
+    (hne : specs.filterMap (satisfy N) = [] → specs = []) :
+    parseRange h (N : Int) = some ((specs.filterMap (satisfy N)).map toRg) := by
+  unfold parseRange
+  rw [parseRangeD_denote h N hN specs hd]
+  by_cases hr : specs.filterMap (satisfy N) = []
+  · have := hne hr
+    subst this
+    simp [anyUnsat]
+  · simp [hr]
+
+/-- header level: elements, none of them satisfiable ⇒ errNoOverlap -/
+theorem parseRange_none_of_unsat (h : List Char) (N : Nat) (hN : N < 2 ^ 62) (specs : List RSpec)
+    (hd : denote h = some specs) (hs0 : specs ≠ []) (hnone : specs.filterMap (satisfy N) = []) :
+    parseRange h (N : Int) = none := by
+  unfold parseRange
+  rw [parseRangeD_denote h N hN specs hd, anyUnsat_of_none_left N specs hs0 hnone, hnone]
+  simp
 
 theorem denote_nil_iff (h : List Char) (specs : List RSpec) (hd : denote h = some specs) (he : h = []) : specs = [] := by
   subst he; simp [denote] at hd; exact hd
 
-/-- LAST STEP, 416 side: no element satisfiable and one of them beyond the size ⇒ 416, which is what is expected -/
-theorem respond_conforms_unsat (h : List Char) (R : List Nat) (specs : List RSpec)
-    (hd : denote h = some specs) (hb : specs.any (beyond R.length) = true)
-    (hnone : ∀ sp ∈ specs, satisfy R.length sp = none) :
+/-- LAST STEP, 416 side: elements, none of them satisfiable ⇒ 416, which is what is expected -/
+theorem respond_conforms_unsat (h : List Char) (R : List Nat) (specs : List RSpec) (hN : R.length < 2 ^ 62)
+    (hd : denote h = some specs) (hs0 : specs ≠ [])
+    (hnone : specs.filterMap (satisfy R.length) = []) :
     conforms (expected specs R.length) R (respond h R) = true := by
-  have hs0 : specs ≠ [] := by intro e; subst e; simp at hb
   have he : h ≠ [] := fun e => hs0 (denote_nil_iff h specs hd e)
-  rw [respond_unsat h R he (parseRange_none_of_beyond h R.length specs hd hb)]
-  have : specs.filterMap (satisfy R.length) = [] := by
-    rw [List.filterMap_eq_nil_iff]; exact hnone
-  simp [expected, hs0, this, conforms]
+  rw [respond_unsat h R he (parseRange_none_of_unsat h R.length hN specs hd hs0 hnone)]
+  simp [expected, hs0, hnone, conforms]
 
 /-! ## from `conforms` to the complete judge -/
 
@@ -423,5 +533,276 @@ theorem rangeJudge_none_of_conforms (h : List Char) (R : List Nat) (specs : List
   | unsat => simp [rangeJudge, habs.1, habs.2, hd, hc]
   | single g b => simp [rangeJudge, habs.1, habs.2, hd, hc]
   | multi ps => simp [rangeJudge, habs.1, habs.2, hd, hc]
+
+/-! ## every answer is self-consistent, whatever the header (grammatical or not) -/
+
+/-- a range inside a content of N bytes: non-empty, not beyond the end -/
+def inside (N : Int) (r : Rg) : Prop := 0 ≤ r.start ∧ 0 < r.length ∧ r.start + r.length ≤ N
+
+theorem parseOne_inside (ra : List Char) (N : Int) (r : Rg) (h0 : 0 ≤ N) (h1 : N < 2 ^ 63)
+    (h : parseOne ra N = .range r) : inside N r := by
+  unfold parseOne at h
+  cases hcut : cut '-' ra with
+  | none => simp [hcut] at h
+  | some se =>
+    obtain ⟨s0, e0⟩ := se
+    simp only [hcut] at h
+    by_cases hs0 : trimSpace s0 = []
+    · simp only [hs0, if_true] at h
+      cases hsg : emptyOrSigned (trimSpace e0) with
+      | true => simp [hsg] at h
+      | false =>
+        simp only [hsg, Bool.false_eq_true, if_false] at h
+        cases hp : parseInt64 (trimSpace e0) with
+        | none => simp [hp] at h
+        | some i =>
+          simp only [hp] at h
+          by_cases hneg : i < 0
+          · simp [hneg] at h
+          · simp only [hneg, if_false] at h
+            by_cases hgt : i > N
+            · simp only [hgt, if_true] at h
+              by_cases hz : N = 0
+              · simp [hz] at h
+              · simp only [hz, if_false, Elem.range.injEq] at h
+                subst h
+                have e1 : wrap64 (N - N) = 0 := by rw [wrap64_id] <;> omega
+                have e2 : wrap64 (N - 0) = N := by rw [wrap64_id] <;> omega
+                simp only [inside, e1, e2]; omega
+            · simp only [hgt, if_false] at h
+              by_cases hz : i = 0
+              · simp [hz] at h
+              · simp only [hz, if_false, Elem.range.injEq] at h
+                subst h
+                have e1 : wrap64 (N - i) = N - i := by rw [wrap64_id] <;> omega
+                have e2 : wrap64 (N - (N - i)) = i := by rw [wrap64_id] <;> omega
+                simp only [inside, e1, e2]; omega
+    · simp only [hs0, if_false] at h
+      cases hp : parseInt64 (trimSpace s0) with
+      | none => simp [hp] at h
+      | some i =>
+        simp only [hp] at h
+        by_cases hneg : i < 0
+        · simp [hneg] at h
+        · simp only [hneg, if_false] at h
+          by_cases hge : i ≥ N
+          · simp [hge] at h
+          · simp only [hge, if_false] at h
+            by_cases he0 : trimSpace e0 = []
+            · simp only [he0, if_true, Elem.range.injEq] at h
+              subst h; simp only [inside]; omega
+            · simp only [he0, if_false] at h
+              cases hq : parseInt64 (trimSpace e0) with
+              | none => simp [hq] at h
+              | some j =>
+                simp only [hq] at h
+                by_cases hij : i > j
+                · simp [hij] at h
+                · simp only [hij, if_false] at h
+                  by_cases hjN : j ≥ N
+                  · simp only [hjN, if_true, Elem.range.injEq] at h
+                    subst h; simp only [inside]; omega
+                  · simp only [hjN, if_false, Elem.range.injEq] at h
+                    subst h; simp only [inside]; omega
+
+theorem parsePieces_inside (N : Int) (h0 : 0 ≤ N) (h1 : N < 2 ^ 63) :
+    ∀ (ps : List (List Char)) (rs : List Rg) (no : Bool), parsePieces ps N = some (rs, no) → ∀ r ∈ rs, inside N r := by
+  intro ps
+  induction ps with
+  | nil =>
+    intro rs no h
+    simp only [parsePieces, Option.some.injEq, Prod.mk.injEq] at h
+    obtain ⟨e1, _⟩ := h
+    subst e1
+    intro r hr; simp at hr
+  | cons p rest ih =>
+    intro rs no h
+    simp only [parsePieces] at h
+    by_cases hb : trimSpace p = []
+    · simp only [hb, if_true] at h
+      exact ih rs no h
+    · simp only [hb, if_false] at h
+      cases ho : parseOne (trimSpace p) N with
+      | invalid => simp [ho] at h
+      | noOverlap =>
+        simp only [ho] at h
+        cases hr : parsePieces rest N with
+        | none => simp [hr] at h
+        | some q =>
+          obtain ⟨rs', no'⟩ := q
+          simp only [hr, Option.some.injEq, Prod.mk.injEq] at h
+          obtain ⟨e1, _⟩ := h
+          subst e1
+          exact ih rs' no' hr
+      | range g =>
+        simp only [ho] at h
+        cases hr : parsePieces rest N with
+        | none => simp [hr] at h
+        | some q =>
+          obtain ⟨rs', no'⟩ := q
+          simp only [hr, Option.some.injEq, Prod.mk.injEq] at h
+          obtain ⟨e1, _⟩ := h
+          subst e1
+          intro r hr'
+          simp only [List.mem_cons] at hr'
+          rcases hr' with e | hm
+          · subst e; exact parseOne_inside _ N _ h0 h1 ho
+          · exact ih rs' no' hr r hm
+
+/-- every range `parseRange` returns is non-empty and lies inside the content -/
+theorem parseRange_inside (h : List Char) (N : Int) (h0 : 0 ≤ N) (h1 : N < 2 ^ 63) (rs : List Rg)
+    (hp : parseRange h N = some rs) : ∀ r ∈ rs, inside N r := by
+  unfold parseRange at hp
+  cases hd : parseRangeD h N with
+  | none => simp [hd] at hp
+  | some q =>
+    obtain ⟨rs', no⟩ := q
+    simp only [hd] at hp
+    have hrs : rs' = rs := by
+      by_cases hc : no = true ∧ rs' = []
+      · simp [hc] at hp
+      · simp only [hc, if_false, Option.some.injEq] at hp; exact hp
+    subst hrs
+    unfold parseRangeD at hd
+    by_cases he : h = []
+    · simp only [he, if_true, Option.some.injEq, Prod.mk.injEq] at hd
+      intro r hr; simp [hd.1.symm] at hr
+    · simp only [he, if_false] at hd
+      cases hs : stripBytesPrefix h with
+      | none => simp [hs] at hd
+      | some rest =>
+        simp only [hs] at hd
+        exact parsePieces_inside N h0 h1 _ rs' no hd
+
+theorem processRange_single (h : List Char) (N : Int) (r : Rg) (hp : processRange h N = .single r) :
+    parseRange h N = some [r] := by
+  unfold processRange at hp
+  by_cases he : h = []
+  · simp [he] at hp
+  · simp only [he, if_false] at hp
+    cases hq : parseRange h N with
+    | none => simp [hq] at hp
+    | some rs =>
+      simp only [hq] at hp
+      by_cases hbig : sumRangesSize rs > N ∨ rs = []
+      · simp [hbig] at hp
+      · simp only [hbig, if_false] at hp
+        cases rs with
+        | nil => simp at hbig
+        | cons a t =>
+          cases t with
+          | nil => simp only [Decision.single.injEq] at hp; subst hp; rfl
+          | cons b t2 =>
+            simp only at hp
+            split at hp <;> simp at hp
+
+theorem processRange_multi (h : List Char) (N : Int) (rs : List Rg) (hp : processRange h N = .multi rs) :
+    parseRange h N = some rs := by
+  unfold processRange at hp
+  by_cases he : h = []
+  · simp [he] at hp
+  · simp only [he, if_false] at hp
+    cases hq : parseRange h N with
+    | none => simp [hq] at hp
+    | some rs' =>
+      simp only [hq] at hp
+      by_cases hbig : sumRangesSize rs' > N ∨ rs' = []
+      · simp [hbig] at hp
+      · simp only [hbig, if_false] at hp
+        cases rs' with
+        | nil => simp at hbig
+        | cons a t =>
+          cases t with
+          | nil => simp at hp
+          | cons b t2 =>
+            simp only at hp
+            split at hp
+            · simp at hp
+            · simp only [Decision.multi.injEq] at hp; subst hp; rfl
+
+theorem okPart_of_inside (R : List Nat) (r : Rg) (h : inside (R.length : Int) r) :
+    (decide (0 ≤ r.start) && decide (0 < r.length) && decide (r.start + r.length ≤ (R.length : Int)) &&
+      slice R r.start r.length == (R.drop r.start.toNat).take r.length.toNat) = true := by
+  obtain ⟨a1, a2, a3⟩ := h
+  have hh : ¬ (r.length ≤ 0 ∨ r.start < 0) := by omega
+  simp [slice, hh, a1, a2, a3]
+
+theorem multi_ok_inside (R : List Nat) : ∀ rs : List Rg, (∀ r ∈ rs, inside (R.length : Int) r) →
+    (rs.map fun r => (r, slice R r.start r.length)).find? (fun p => decide (p.1.length ≤ 0)) = none ∧
+    (rs.map fun r => (r, slice R r.start r.length)).all (fun p =>
+      decide (0 ≤ p.1.start) && decide (0 < p.1.length) && decide (p.1.start + p.1.length ≤ (R.length : Int)) &&
+        p.2 == (R.drop p.1.start.toNat).take p.1.length.toNat) = true := by
+  intro rs h
+  induction rs with
+  | nil => simp
+  | cons r t ih =>
+    have hr := h r (by simp)
+    have iht := ih (fun x hx => h x (by simp [hx]))
+    have hpos : ¬ (r.length ≤ 0) := by have := hr.2.1; omega
+    constructor
+    · simp only [List.map_cons, List.find?_cons, hpos, decide_false]; exact iht.1
+    · simp only [List.map_cons, List.all_cons, Bool.and_eq_true]
+      exact ⟨by simpa [Bool.and_eq_true] using okPart_of_inside R r hr, iht.2⟩
+
+/-- whatever the header: no empty or negative range, and every 206 part carries exactly the bytes its Content-Range names,
+    which lie inside the content; a 200 carries everything -/
+theorem respond_self_consistent (h : List Char) (R : List Nat) (hN : R.length < 2 ^ 63) :
+    rgNonPositive (respond h R) = none ∧ consistent R (respond h R) = true := by
+  have h0 : (0 : Int) ≤ (R.length : Int) := by omega
+  have h1 : (R.length : Int) < 2 ^ 63 := by omega
+  unfold respond
+  cases hp : processRange h (R.length : Int) with
+  | full => simp [rgNonPositive, consistent]
+  | unsat => simp [rgNonPositive, consistent]
+  | single r =>
+    have hin := parseRange_inside h _ h0 h1 _ (processRange_single h _ r hp) r (by simp)
+    have hpos : ¬ (r.length ≤ 0) := by have := hin.2.1; omega
+    constructor
+    · simp only [rgNonPositive, hpos, if_false]
+    · simp only [consistent]; exact okPart_of_inside R r hin
+  | multi rs =>
+    have hin := parseRange_inside h _ h0 h1 _ (processRange_multi h _ rs hp)
+    have := multi_ok_inside R rs hin
+    constructor
+    · simp only [rgNonPositive, this.1]; rfl
+    · simp only [consistent]; exact this.2
+
+/-- the judge on a header outside the grammar asks for self-consistency only -/
+theorem rangeJudge_none_outside_grammar (h : List Char) (R : List Nat) (resp : Response) (hd : denote h = none)
+    (h1 : rgNonPositive resp = none) (h2 : consistent R resp = true) : rangeJudge h R resp = none := by
+  cases resp with
+  | full b =>
+    have : (b == R) = true := by simpa [consistent] using h2
+    simp [rangeJudge, this]
+  | unsat => simp [rangeJudge, h1, h2, hd]
+  | single g b => simp [rangeJudge, h1, h2, hd]
+  | multi ps => simp [rangeJudge, h1, h2, hd]
+
+/-! ## Accept-Encoding: the handler's element-wise test implies the spec's acceptance -/
+
+theorem lowerAscii_eq_lower : lowerAscii = lower := by
+  funext c; rfl
+
+theorem paramRefuses_eq_qIsZero : paramRefuses = qIsZero := by
+  funext p; simp only [paramRefuses, qIsZero, lowerAscii_eq_lower]; rfl
+
+theorem elemAccepts_of_elemLists (e : List Char) (h : elemListsGzip e = true) : elemAcceptsGzip e = true := by
+  unfold elemListsGzip at h
+  unfold elemAcceptsGzip
+  cases hs : splitOn ';' e with
+  | nil => simp [hs] at h
+  | cons coding params =>
+    simp only [hs, Bool.and_eq_true, Bool.or_eq_true, lowerAscii_eq_lower, paramRefuses_eq_qIsZero] at h ⊢
+    refine ⟨?_, h.2⟩
+    rcases h.1 with h1 | h1
+    · exact Or.inl (Or.inl (by simpa [gzipWord] using h1))
+    · exact Or.inl (Or.inr h1)
+
+theorem clientAccepts_of_acceptsGzip (ae : List Char) (h : acceptsGzip ae = true) : clientAcceptsGzip ae = true := by
+  unfold acceptsGzip at h
+  unfold clientAcceptsGzip
+  rw [List.any_eq_true] at h ⊢
+  obtain ⟨e, he, hl⟩ := h
+  exact ⟨e, he, elemAccepts_of_elemLists e hl⟩
 
 end SwV.Lemmas.C32
